@@ -27,7 +27,7 @@ ASSUMPTIONS = [
 
 def cfg():
     return P.GenCfg(nq=4, max_items=9, max_depth=3, p_sub=22, p_rel=45, max_reps=1, globals_=True, global_zero=True,
-                    p_share=30, max_total_leaves=60)
+                    p_share=30, max_total_leaves=60, p_dangling=8)
 
 
 def strat():
